@@ -1917,7 +1917,7 @@ def ev(n, env, funcs=None):
             return zip(*[_iter(a_, n) for a_ in args], **_kw(n, env, funcs))
         if isinstance(f, ast.Name) and not _shadowed and fname == 'reversed' and len(args) == 1 and not n.keywords:
             a0 = args[0]
-            if isinstance(a0, (list, tuple, range, str, dict)):
+            if isinstance(a0, (list, tuple, range, str, dict)) or (_is_std_container(a0) and hasattr(a0, '__reversed__')):
                 return reversed(a0)
             if isinstance(a0, Obj):
                 if '__reversed__' in a0.methods:
